@@ -14,7 +14,7 @@ pub fn meta() -> Meta {
 the 7 flags, opcode and rcode equal an 8-line bit model), through the eight header_buffer peeks (also with counts {0,1,0xff,0xff00,0xffff} in each \
 slot) and through re-serialisation (same id, zero counts, identical flag word when opcode and rcode are named, identical outside those fields \
 otherwise); every non-Z flag word again in a message that also carries an OPT record with arbitrary VERSION / flags and extended RCODE 0 (same fields, same re-serialised word); all 128x128 pairs of flag sets x named opcodes x rcodes for set_flags/remove_flags/has_flags (incl. multi-flag queries); every named \
-opcode x rcode x 128 subsets on the build side via new_query/new_reply/opcode_mut/rcode_mut; section counts for 0..3 entries per section. \
+opcode x rcode x 128 subsets on the build side via new_query/new_reply/opcode_mut/rcode_mut, and into_reply() of each (id and opcode kept, QR set); section counts for 0..3 entries per section. \
 non-trivial = every case (each exercises a distinct header); distinct = hash of the case descriptor",
         assumptions: &["the bit model is written from RFC 1035 4.1.1 / RFC 2535 (AD, CD)"],
         exhaustive: true,
@@ -331,11 +331,21 @@ pub fn run(ctx: &mut Ctx) {
                             *p.opcode_mut() = bridge::lib_opcode(op).unwrap();
                             *p.rcode_mut() = bridge::lib_rcode(rc).unwrap();
                             p.set_flags(bridge::lib_flags(f));
+                            // the same packet turned into a reply: the id and the opcode are the query's, QR is set
+                            let as_reply = p.clone().into_reply().build_bytes_vec().ok();
+                            if let Some(b) = &as_reply {
+                                if b.len() != 12 || b[..2] != id.to_be_bytes() || b[2] & 0x80 == 0 || (b[2] >> 3) & 0xF != op as u8 || b[4..12] != [0u8; 8] {
+                                    panic!("VERIF-ORACLE into_reply gives {}", hex(b));
+                                }
+                            } else {
+                                panic!("VERIF-ORACLE into_reply cannot be built");
+                            }
                             p.build_bytes_vec()
                         });
                         // BADVERS (16) needs EDNS for its upper bits; the header only ever carries the low four
                         let want = hdr(id, f | if reply { 0x8000 } else { 0 } | (op << 11) | (rc & 0xF), [0; 4]);
                         match r {
+                            Err(pn) if pn.message.contains("VERIF-ORACLE") => ctx.violation("build-header", "into-reply-header-differs", format!("{} (want id {:#06x}, QR set, opcode {})", pn.message, id, op), case()),
                             Err(pn) => ctx.panic_violation("build header", &pn, case()),
                             Ok(Err(e)) => ctx.violation("build-header", "build-header-failed", format!("{:?}", e), case()),
                             Ok(Ok(o)) => {
